@@ -71,52 +71,73 @@ Definition set_pend (s : side2) (p : option nat) : side2 := mkSide2 (e_mux s) (e
 Definition pend_is (s : side2) (d : nat) : bool :=
   match e_pend s with Some p => Nat.eqb p d | None => false end.
 
-(* Multiplexer.on_pdu for one end: new state, frames sent, and whether a pending
-   open_dlc was resolved wrongly *)
-Definition on_frame2 (responder : bool) (s : side2) (f : fr2) : side2 * list fr2 * bool :=
+(* what happened to the pending open_result while a frame was processed *)
+Inductive oev := NoEv | EvOk | EvFail.
+
+Definition has_pend (s : side2) : bool := match e_pend s with Some _ => true | None => false end.
+
+(* Multiplexer.on_pdu for one end: new state, frames sent, and the resolution (if any) of
+   the pending open_result ("if self.open_result: ...": nothing happens when none is) *)
+Definition on_frame2 (responder : bool) (s : side2) (f : fr2) : side2 * list fr2 * oev :=
   match f with
   | G_SABM0 =>
-      if is_mst (e_mux s) MInit then (set_mux s MConnected, [G_UA0], false) else (s, [], false)
+      if is_mst (e_mux s) MInit then (set_mux s MConnected, [G_UA0], NoEv) else (s, [], NoEv)
   | G_UA0 =>
       match e_mux s with
-      | MConnecting => (set_mux s MConnected, [], false)
-      | MDisconnecting => (set_mux s MDisconnected, [], false)
-      | _ => (s, [], false)
+      | MConnecting => (set_mux s MConnected, [], NoEv)
+      | MDisconnecting => (set_mux s MDisconnected, [], NoEv)
+      | _ => (s, [], NoEv)
       end
-  | G_DISC0 => (set_mux s MDisconnected, [G_UA0], false)
+  | G_DISC0 => (set_mux s MDisconnected, [G_UA0], NoEv)
   | G_DM d =>
       (* Multiplexer.on_dm_frame: fails the pending open whatever the DLCI *)
       if is_mst (e_mux s) MOpening
-      then (set_pend (set_mux s MConnected) None, [], negb (pend_is s d && negb (accepted d)))
-      else (s, [], false)
+      then (set_pend (set_mux s MConnected) None, [], if has_pend s then EvFail else NoEv)
+      else (s, [], NoEv)
   | G_PNcmd d =>
       if responder then
-        if accepted d then (set_slot s d (Some DConnecting), [G_PNrsp d], false)
-        else (s, [G_DM d], false)
-      else (s, [], false)
+        if accepted d then (set_slot s d (Some DConnecting), [G_PNrsp d], NoEv)
+        else (s, [G_DM d], NoEv)
+      else (s, [], NoEv)
   | G_PNrsp d =>
       if is_mst (e_mux s) MOpening
-      then (set_slot s d (Some DConnecting), [G_SABM d], false)
-      else (s, [], false)
+      then (set_slot s d (Some DConnecting), [G_SABM d], NoEv)
+      else (s, [], NoEv)
   | G_SABM d =>
       match slot s d with
-      | Some DConnecting => (set_slot s d (Some DConnected), [G_UA d], false)
-      | _ => (s, [], false)
+      | Some DConnecting => (set_slot s d (Some DConnected), [G_UA d], NoEv)
+      | _ => (s, [], NoEv)
       end
   | G_UA d =>
       match slot s d with
       | Some DConnecting =>
           (* on_dlc_open_complete: multiplexer CONNECTED, open_result.set_result(dlc) *)
           (set_pend (set_mux (set_slot s d (Some DConnected)) MConnected) None, [],
-           negb (pend_is s d && accepted d))
-      | Some DDisconnecting => (set_slot s d None, [], false)     (* on_dlc_disconnection *)
-      | _ => (s, [], false)
+           if has_pend s then EvOk else NoEv)
+      | Some DDisconnecting => (set_slot s d None, [], NoEv)     (* on_dlc_disconnection *)
+      | _ => (s, [], NoEv)
       end
   | G_DISC d =>
       match slot s d with
-      | Some _ => (set_slot s d None, [G_UA d], false)
-      | None => (s, [], false)
+      | Some _ => (set_slot s d None, [G_UA d], NoEv)
+      | None => (s, [], NoEv)
       end
+  end.
+
+Definition fr2_chan (f : fr2) : nat :=
+  match f with
+  | G_PNcmd d | G_PNrsp d | G_DM d | G_SABM d | G_UA d | G_DISC d => d
+  | _ => 0
+  end.
+
+(* was the pending open_dlc(p) resolved wrongly by what happened while frame f (channel d)
+   was processed: success with another link's DLC or of a refused channel, failure of an
+   accepted channel or caused by another link *)
+Definition wrong_outcome (s : side2) (f : fr2) (ev : oev) : bool :=
+  match ev with
+  | NoEv => false
+  | EvOk => negb (pend_is s (fr2_chan f) && accepted (fr2_chan f))
+  | EvFail => negb (pend_is s (fr2_chan f) && negb (accepted (fr2_chan f)))
   end.
 
 Definition abort_slot (x : option dst) : option dst :=
@@ -124,7 +145,7 @@ Definition abort_slot (x : option dst) : option dst :=
 Definition abort2 (s : side2) : side2 :=
   mkSide2 (e_mux s) (abort_slot (e_s0 s)) (abort_slot (e_s1 s)) (e_pend s).
 
-Definition sm2_step_gen (onf : bool -> side2 -> fr2 -> side2 * list fr2 * bool) (s : st2) (l : lbl2) : st2 :=
+Definition sm2_step_gen (onf : bool -> side2 -> fr2 -> side2 * list fr2 * oev) (s : st2) (l : lbl2) : st2 :=
   if t_closed s then s else
   match l with
   | L_Connect =>
@@ -160,15 +181,15 @@ Definition sm2_step_gen (onf : bool -> side2 -> fr2 -> side2 * list fr2 * bool) 
       match t_ab s with
       | [] => s
       | f :: rest =>
-          let '(b', out, bad) := onf true (t_b s) f in
-          mkSt2 (t_a s) b' false (t_bad s || bad) rest (t_ba s ++ out)
+          let '(b', out, ev) := onf true (t_b s) f in
+          mkSt2 (t_a s) b' false (t_bad s || wrong_outcome (t_b s) f ev) rest (t_ba s ++ out)
       end
   | L_DeliverBA =>
       match t_ba s with
       | [] => s
       | f :: rest =>
-          let '(a', out, bad) := onf false (t_a s) f in
-          mkSt2 a' (t_b s) false (t_bad s || bad) (t_ab s ++ out) rest
+          let '(a', out, ev) := onf false (t_a s) f in
+          mkSt2 a' (t_b s) false (t_bad s || wrong_outcome (t_a s) f ev) (t_ab s ++ out) rest
       end
   end.
 
@@ -179,22 +200,22 @@ Fixpoint sm2_run (s : st2) (ls : list lbl2) : st2 :=
 
 (* the seeded variant the coordinator found missed: on_dlc_disconnection also "un-sticks"
    an OPENING multiplexer, failing the pending open whichever link closed *)
-Definition unstick (s : side2) : side2 * bool :=
+Definition unstick (s : side2) : side2 * oev :=
   if is_mst (e_mux s) MOpening
-  then (set_pend (set_mux s MConnected) None, match e_pend s with Some _ => true | None => false end)
-  else (s, false).
+  then (set_pend (set_mux s MConnected) None, if has_pend s then EvFail else NoEv)
+  else (s, NoEv).
 
-Definition on_frame2_seeded (responder : bool) (s : side2) (f : fr2) : side2 * list fr2 * bool :=
+Definition on_frame2_seeded (responder : bool) (s : side2) (f : fr2) : side2 * list fr2 * oev :=
   match f with
   | G_UA d =>
       match slot s d with
-      | Some DDisconnecting => let '(s', bad) := unstick (set_slot s d None) in (s', [], bad)
+      | Some DDisconnecting => let '(s', ev) := unstick (set_slot s d None) in (s', [], ev)
       | _ => on_frame2 responder s f
       end
   | G_DISC d =>
       match slot s d with
-      | Some _ => let '(s', bad) := unstick (set_slot s d None) in (s', [G_UA d], bad)
-      | None => (s, [], false)
+      | Some _ => let '(s', ev) := unstick (set_slot s d None) in (s', [G_UA d], ev)
+      | None => (s, [], NoEv)
       end
   | _ => on_frame2 responder s f
   end.
@@ -239,3 +260,20 @@ Fixpoint sm2_trace (s : st2) (ls : list lbl2) :=
   | [] => []
   | l :: r => let s' := sm2_step s l in st2_obs s' :: sm2_trace s' r
   end.
+
+(* ---------- outside the environment assumptions: the RESPONDER disconnects the multiplexer
+   (Multiplexer.disconnect is role-agnostic; rfcomm.Server offers no call for it).  Used only
+   to state known finding D20j. *)
+Inductive lbl2x := X (l : lbl2) | X_BMuxDisc.
+
+Definition sm2_stepx (s : st2) (l : lbl2x) : st2 :=
+  match l with
+  | X l' => sm2_step s l'
+  | X_BMuxDisc =>
+      if negb (t_closed s) && is_mst (e_mux (t_b s)) MConnected
+      then mkSt2 (t_a s) (set_mux (t_b s) MDisconnecting) false (t_bad s) (t_ab s) (t_ba s ++ [G_DISC0])
+      else s
+  end.
+
+Fixpoint sm2_runx (s : st2) (ls : list lbl2x) : st2 :=
+  match ls with [] => s | l :: r => sm2_runx (sm2_stepx s l) r end.
